@@ -28,3 +28,5 @@ func verifIte(c bool, a, b uint64) uint64
 func verifAnd(a, b bool) bool
 func verifOr(a, b bool) bool
 func verifIfaceEq(a, b interface{}) bool
+func verifCmpU64(a, b uint64) int
+func verifIteB(c bool, a, b bool) bool
